@@ -80,7 +80,7 @@ func dyn(u string, attempt int) (world.Resp, bool) {
 	case "/pj":
 		return world.Resp{Status: 200, Header: html, Body: `<!DOCTYPE html><html><body><img src="/nj/0.json"></body></html>`}, true
 	case "/selfpage":
-		return world.Resp{Status: 200, Header: html, Body: `<!DOCTYPE html><html><body><img src="/selfpage"><a href="/selfpage">me</a></body></html>`}, true
+		return world.Resp{Status: 200, Header: html, Body: `<!DOCTYPE html><html><body><img src="/selfpage"><img src="/a.png"><img src="` + H + `/selfpage"><img src="/ra.png"><a href="/selfpage">me</a></body></html>`}, true // an ordinary asset right after the self-reference
 	case "/boom":
 		return world.Resp{Status: 500, Header: map[string]string{"Content-Type": "text/plain"}, Body: "oops"}, true
 	case "/limited":
